@@ -316,10 +316,11 @@ class Split(Stage):
         p = self.pred(x)
         out = []
         if self.seg is None:
-            self.seg, self.cur = self.child(), p
+            self.seg = self.child()
         elif p != self.cur:
             out.extend(self.seg.end())
-            self.seg, self.cur = self.child(), p
+            self.seg = self.child()
+        self.cur = p                      # compared with the PREVIOUS item's value, as stated
         out.extend(self.seg.item(x))
         return out
 
